@@ -67,7 +67,12 @@ func (r Result) RowsAffected() (int64, error) { return r.Affected, nil }
 type RowSet struct {
 	Cols []string
 	Rows [][]driver.Value
+	// BreakAfter > 0: the result set fails after delivering that many rows
+	// (rows.Next() == false, rows.Err() == errRowsBroken)
+	BreakAfter int
 }
+
+var errRowsBroken = errors.New("verif: result set broken")
 
 type Store struct {
 	Log                 []Event
